@@ -160,7 +160,9 @@ def collect_metadata(path, measure_set):
     meta = {
         "TIME_SYSTEM": measure_set.start.scale.name,
         "START_TIME": measure_set.start.strftime(DATE_FMT_DEFAULT),
-        "STOP_TIME": measure_set.stop.strftime(DATE_FMT_DEFAULT),
+        "STOP_TIME": measure_set.stop.change_scale(
+            measure_set.start.scale.name
+        ).strftime(DATE_FMT_DEFAULT),
     }
 
     i = 0
@@ -238,7 +240,8 @@ def _dumps_kvn(data, **kwargs):
             txt.append(
                 "{name:20} = {date:{DATE_FMT_DEFAULT}} {value:{value_fmt}}".format(
                     name=name,
-                    date=m.date,
+                    # in the time system the segment announces
+                    date=m.date.change_scale(meta["TIME_SYSTEM"]),
                     DATE_FMT_DEFAULT=DATE_FMT_DEFAULT,
                     value=value,
                     value_fmt=value_fmt,
@@ -276,7 +279,10 @@ def _dumps_xml(data, **kwargs):
             obs = ET.SubElement(data_tag, "observation")
 
             epoch = ET.SubElement(obs, "EPOCH")
-            epoch.text = m.date.strftime(DATE_FMT_DEFAULT)
+            # in the time system the segment announces
+            epoch.text = m.date.change_scale(meta["TIME_SYSTEM"]).strftime(
+                DATE_FMT_DEFAULT
+            )
             name, value, value_fmt = encode_measurement(m)
 
             field = ET.SubElement(obs, name)
